@@ -33,6 +33,9 @@ pub struct Stats {
     pub nontrivial: BTreeSet<u64>,
     pub schedules: BTreeSet<u64>,
     pub histories: BTreeSet<u64>,
+    /// distinct abstract states (see abstract_states)
+    #[serde(default)]
+    pub abstract_states: BTreeSet<u64>,
     pub violations: Vec<VioRec>,
     pub violations_total: u64,
     pub known_seen: BTreeMap<String, u64>,
@@ -78,6 +81,7 @@ impl Stats {
         self.nontrivial.extend(o.nontrivial);
         self.schedules.extend(o.schedules);
         self.histories.extend(o.histories);
+        self.abstract_states.extend(o.abstract_states);
         for v in o.violations {
             if self.violations.len() < 40 {
                 self.violations.push(v);
@@ -130,6 +134,51 @@ pub fn sample_json(rec: &RunRecord, i: u64) -> serde_json::Value {
         "history_excerpt": hist,
         "history_len": rec.ev.len(),
     })
+}
+
+/// Abstract states visited by a run, recomputed from its history after every event: per store
+/// (dispatch-queue length, dispatch calls in flight, reducer phase, shutdown begun, shutdown
+/// returned, live pool workers, iterator/channeled queues non-empty).  The evidence reports how
+/// many distinct tuples a batch reached.
+pub fn abstract_states(d: &Digest, out: &mut BTreeSet<u64>) {
+    use crate::world::K;
+    for (s, sd) in d.stores.iter().enumerate() {
+        let (mut qlen, mut inflight, mut phase, mut closing, mut closed, mut workers, mut subq) = (0usize, 0i32, 0u8, false, false, 0i32, 0usize);
+        let prefix = format!("{}-pool", sd.model.name);
+        let mut pool_tids: Vec<usize> = vec![];
+        for e in d.ev {
+            match &e.k {
+                K::ChSend { chan, len } | K::ChRecv { chan, len } if Some(*chan) == sd.dchan => qlen = *len,
+                K::ChSend { chan, len } | K::ChRecv { chan, len } if d.reg_chan.values().any(|c| c == chan) || d.iter_chan.values().any(|c| c == chan) => subq = (*len).min(2),
+                K::Inv { op: crate::world::OpK::Dispatch { store, .. }, .. } if *store == s => inflight += 1,
+                K::Ret { thr, idx, .. } => {
+                    if let Some(c) = d.calls.iter().find(|c| c.thr == *thr && c.idx == *idx) {
+                        match c.op {
+                            crate::world::OpK::Dispatch { store, .. } if store == s => inflight -= 1,
+                            crate::world::OpK::Stop { store } | crate::world::OpK::DropStore { store } if store == s => closed = true,
+                            _ => {}
+                        }
+                    }
+                }
+                K::Inv { op: crate::world::OpK::Stop { store } | crate::world::OpK::Close { store } | crate::world::OpK::DropStore { store }, .. } if *store == s => closing = true,
+                K::MwB { store, hook, .. } if *store == s => phase = 1 + *hook,
+                K::RedB { store, .. } if *store == s => phase = 4,
+                K::NotB { act, .. } if d.act_store.get(act) == Some(&s) => phase = 5,
+                K::RedE { store, .. } | K::MwE { store, .. } if *store == s => phase = 6,
+                K::Spawn { tid, name: Some(n), .. } if n.starts_with(&prefix) => {
+                    workers += 1;
+                    pool_tids.push(*tid);
+                }
+                K::Exit { tid, .. } if pool_tids.contains(tid) => workers -= 1,
+                _ => continue,
+            }
+            let t = (s, qlen.min(17), inflight.clamp(0, 4), phase, closing, closed, workers.clamp(0, 6), subq);
+            use std::hash::{Hash, Hasher};
+            let mut h = std::collections::hash_map::DefaultHasher::new();
+            t.hash(&mut h);
+            out.insert(h.finish());
+        }
+    }
 }
 
 pub fn known_findings() -> BTreeMap<String, (String, String)> {
@@ -201,6 +250,7 @@ pub fn run_chunk(prop: &str, batch_seed: u64, from: u64, to: u64, fixed_family: 
             }
         }
         let d = Digest::new(&rec);
+        abstract_states(&d, &mut st.abstract_states);
         for pr in probes(&d) {
             *st.probes.entry(pr.to_string()).or_default() += 1;
         }
